@@ -2,7 +2,7 @@
     Client/Mux.v.  The Mux model is run under one canonical schedule (every
     schedule gives the same outcome: MuxProofs); the real runs are concurrent. *)
 From Coq Require Import NArith Arith List Bool.
-From P9V Require Import gen.ClientGen Client.Pool Client.Mux Client.Fids.
+From P9V Require Import Client.Pool Client.Mux Client.Fids.
 Import ListNotations.
 Open Scope nat_scope.
 
@@ -28,6 +28,10 @@ Inductive c10case :=
 (* binding requests / clunks against a scripted server: the fid each binding request carried *)
 | CFids (evs : list fev) (fids : list (option N)).
 
+(** the comparison model is the model of the code AS SPECIFIED (all four flags true; that the source has them is the
+    obligation C10_source_shape): this file does not import gen/ClientGen.v, so the cases still evaluate — and yield
+    concrete replays — when go2coq refuses a changed client.go *)
+Definition mark_spec : bool := true.
 Definition tag_of (i : nat) : nat := S i.
 
 Fixpoint find_idx (f : tstate -> bool) (l : list tstate) (i : nat) : option nat :=
@@ -37,7 +41,7 @@ Fixpoint find_idx (f : tstate -> bool) (l : list tstate) (i : nat) : option nat 
   end.
 
 Definition try_step (m : mst) (a : action) : mst :=
-  match step true true true recv_error_marks_dead m a with Some m' => m' | None => m end.
+  match step true true true mark_spec m a with Some m' => m' | None => m end.
 
 Definition feed (m : mst) (j : nat) (it : sitem) : mst :=
   match it with
@@ -46,7 +50,7 @@ Definition feed (m : mst) (j : nat) (it : sitem) : mst :=
   | SWrong i => try_step m (AFrame j (tag_of i) false)
   | SGarbage | SClose => try_step m (ARecvErr j)
   | SShort i =>
-      match step true true true recv_error_marks_dead m (AFrame j (tag_of i) true) with
+      match step true true true mark_spec m (AFrame j (tag_of i) true) with
       | Some m' => match get (thr m') j with
                    | TLooked _ _ _ _ _ => try_step m' (ABody j false)
                    | _ => m'                       (* unknown tag: already broadcast *)
@@ -84,7 +88,7 @@ Fixpoint run_phases (m : mst) (ps : list phase) : mst :=
       let m1 := fold_left (fun (m : mst) (c : nat * bool) =>
                   let m0 := try_step m (AStart (fst c) (tag_of (fst c)) (fst c)) in
                   if snd c then try_step m0 (ASendFail (fst c))
-                  else match step true true true recv_error_marks_dead m0 (ASendOk (fst c)) with
+                  else match step true true true mark_spec m0 (ASendOk (fst c)) with
                        | Some m' => m'
                        | None => try_step m0 (ASendFail (fst c))     (* the connection is dead: the call fails without being sent *)
                        end) calls m in
@@ -122,7 +126,7 @@ Definition agrees (c : c10case) : bool :=
   | CBatch n phases outcomes =>
       all2 obs_matches (thr (run_phases (init n) phases)) outcomes
   | CTrace n tr outcomes =>
-      match run true true true recv_error_marks_dead (init n) tr with
+      match run true true true mark_spec (init n) tr with
       | Some m => all2 obs_matches (thr m) outcomes
       | None => false
       end
